@@ -23,7 +23,7 @@ CHECKS = {
          RNOTE, "DESIGN.md §4 C03"),
  "C04": ("exploration",
          "property-based testing (rapid) with hostile structured argv plus native coverage-guided fuzzing (go test -fuzz) of raw byte argv; oracle: no panic/hang, reference error typing, fd-level stdout/stderr capture",
-         "Generated search over declarations (every option type, choices on flags) x hostile argv x all 32 parser option sets, and (thorough) a 90 s 16-core coverage-guided fuzz campaign feeding arbitrary bytes as argv to 12 fixed rich declarations. Every call must return (recover + 20 s watchdog), errors must be *flags.Error of the type R attributes (weak documented-type rule where R is undetermined or on raw fuzz input), and fds 1/2 captured at descriptor level must be empty without PrintErrors and carry exactly the error text once on the right stream with it.",
+         "Generated search over declarations (every option type, choices on flags) x hostile argv x all 32 parser option sets, and (thorough) a 90 s 16-core coverage-guided fuzz campaign feeding arbitrary bytes as argv to 12 fixed rich declarations. Every call must return (recover + 20 s watchdog), errors must be *flags.Error of the type R attributes (weak documented-type rule where R is undetermined or on raw fuzz input), and fds 1/2 captured at descriptor level must be empty without PrintErrors and carry exactly the error text once on the right stream with it. Cases also include environment values (valid and invalid), error-returning option callbacks that fail, and Execute/CommandHandler returning nil, a foreign error or an ErrHelp-typed error.",
          RNOTE + "; never-hangs is bounded by a watchdog, not proved; process termination (os.Exit) would surface as an inconclusive run, not a violation",
          "DESIGN.md §4 C04"),
  "C05": ("exploration",
@@ -37,7 +37,7 @@ CHECKS = {
          RNOTE, "DESIGN.md §4 C06"),
  "C07": ("exploration",
          "property-based testing (rapid): near-miss unknown option injection under three policies against reference semantics and a handler call log",
-         "Generated search over unknown option tokens (near misses, sibling/not-yet-named commands' options) at random positions under policies none / IgnoreUnknown / handler; error naming, verbatim pass-through with continued parsing, and the exact handler call log (name, inline argument, unconsumed args, returned slice parsed next) are compared with R.",
+         "Generated search over unknown option tokens (near misses, sibling/not-yet-named commands' options) at random positions under policies none / IgnoreUnknown / handler; error naming, verbatim pass-through with continued parsing, and the exact handler call log (name, inline argument, unconsumed args, returned slice parsed next) are compared with R. A third of the plain-policy cases first parse another vector on the same parser object; where R is undetermined under IgnoreUnknown the model-free 'verbatim, in order' check still applies.",
          RNOTE, "DESIGN.md §4 C07"),
  "C08": ("exploration",
          "property-based testing (rapid): reference active-chain/scoping comparison plus metamorphic alias and option-commutation relations on the real parser",
@@ -45,7 +45,7 @@ CHECKS = {
          RNOTE, "DESIGN.md §4 C08"),
  "C09": ("fault_enumeration",
          "fault injection enumerated over every position of generated valid vectors (rapid-generated bases), execution-log invariant",
-         "For every generated base vector that R accepts, every fault kind is injected at every position (and every command/option/positional token is removed or replaced); a rejected variant must leave the Execute and CommandHandler logs empty, an accepted one must show exactly one invocation of the innermost executable command with the returned args and its error unchanged; completion mode must execute nothing. Enumeration is complete per base within the listed fault kinds; bases are sampled.",
+         "For every generated base vector that R accepts, every fault kind is injected at every position (and every command/option/positional token is removed or replaced); a rejected variant must leave the Execute and CommandHandler logs empty, an accepted one must show exactly one invocation of the innermost executable command with the returned args and its error unchanged; completion mode must execute nothing. Faults include unknown options, help, bad/out-of-range values, invalid choices, missing/option-looking arguments, removed or replaced command words, removed options and positionals, unconvertible positionals (also behind '--'); Execute returns nil, a foreign error or an ErrHelp-typed error. Enumeration is complete per base within the listed fault kinds; bases are sampled.",
          RNOTE, "DESIGN.md §4 C09"),
  "C10": ("exploration",
          "property-based testing (rapid): positional binding compared with a reference semantics",
@@ -68,7 +68,7 @@ CHECKS = {
          "DESIGN.md §4 C13"),
  "C14": ("exploration",
          "property-based testing (rapid): metamorphic noise-invariance of valid INI files and single-fault line-number oracle; native coverage-guided fuzzing of raw bytes for totality",
-         "Generated search over valid INI files (entries resolved and accepted by the reference semantics) with noise inserted (blank lines, both comment styles, 70 kB comment lines, blanks around names/=/values/headers, CRLF): the option fields after the noisy file must equal those after the clean file; with exactly one faulty line at a random position the error must be an *IniError carrying that line's 1-based number (ErrUnknownGroup for a section), and under IgnoreUnknown unknown keys/sections are skipped while everything else is applied. Thorough adds a 90 s 16-core fuzz campaign over arbitrary bytes (no panic, error type *IniError or *flags.Error).",
+         "Generated search over valid INI files (entries resolved and accepted by the reference semantics) with noise inserted (blank lines, both comment styles, 70 kB comment lines, blanks around names/=/values/headers, indentation longer than the read buffer, CRLF, a missing final newline, a last line of exactly 4095..70000 bytes): the option fields after the noisy file must equal those after the clean file; with exactly one faulty line at a random position the error must be an *IniError carrying that line's 1-based number (ErrUnknownGroup for a section), and under IgnoreUnknown unknown keys/sections are skipped while everything else is applied. Thorough adds a 90 s 16-core fuzz campaign over arbitrary bytes (no panic, error type *IniError or *flags.Error).",
          "validity of the generated clean file is decided by the reference INI resolution (harness/props/iniref.go); faults are constructed so that exactly one line is wrong; arbitrarily long lines are exercised up to ~70 kB",
          "DESIGN.md §4 C14"),
  "C15": ("exploration",
